@@ -52,9 +52,19 @@ def units(tier, seed):
     for n, m in fam:
         for side in ('intension', 'extension'):
             us.append({'name': f'query family {n}x{m}', 'fn': 'unit_family', 'args': {'n': n, 'm': m, 'side': side}})
+    # the API through the per-table harness as well: other live contexts over the same labels, contexts reloaded /
+    # rebuilt, call sequences, every argument form
+    from . import _mk
+    t = _mk.QUICK_TABLES if tier == 'quick' else _mk.THOROUGH_TABLES
+    us += _mk.table_units(t, extra={'lattice': False}) + _mk.skeleton_units(tier, seed, extra={'lattice': False})
     # longest first
-    us.sort(key=lambda u: -(u['args']['n'] * u['args']['m']))
+    us.sort(key=lambda u: -(min(u['args']['n'], 16) * min(u['args']['m'], 16)))
     return us
+
+
+def unit_table(args, prefix=(), max_depth=None):
+    from . import pertable
+    return pertable.unit(PID, 'b01', args, prefix, max_depth)
 
 
 def _case(model, cells, side, qval, n, m, what):
